@@ -52,24 +52,25 @@ ASSUMPTIONS = [
 
 # additional theorem modules per property (namespace Cxx), beyond CoseProofs.Props.Cxx
 DEEP = {
-    "C01": ["CoseProofs.Deep.Chain", "CoseProofs.Deep.WireClosure"],
+    "C01": ["CoseProofs.Deep.Chain", "CoseProofs.Deep.WireClosure", "CoseProofs.SignersTie", "CoseProofs.Deep.Signers", "CoseProofs.Deep.SignWireClosure"],
     "C02": ["CoseProofs.Deep.Tbs"],
-    "C03": ["CoseProofs.Deep.Tbs", "CoseProofs.Deep.Tamper"],
+    "C03": ["CoseProofs.Deep.Tbs", "CoseProofs.Deep.Tamper", "CoseProofs.SignersTie", "CoseProofs.Deep.Signers"],
     "C04": ["CoseProofs.FactsTie", "CoseProofs.Deep.Tamper"],
     "C05": ["CoseProofs.Deep.Reencode", "CoseProofs.Deep.Accept", "CoseProofs.Deep.SignMsg"],
     "C06": ["CoseProofs.Deep.NoPanic"],
     "C07": ["CoseProofs.Deep.Accept", "CoseProofs.Deep.Verifies"],
     "C08": ["CoseProofs.Deep.Headers", "CoseProofs.Deep.RoundTrip"],
-    "C09": ["CoseProofs.Deep.Reencode", "CoseProofs.Deep.SignMsg"],
+    "C09": ["CoseProofs.Deep.Reencode", "CoseProofs.Deep.SignMsg", "CoseProofs.Deep.ClearRaw"],
     "C11": ["CoseProofs.Deep.SignMsg"],
-    "C10": ["CoseProofs.Deep.Tbs", "CoseProofs.FactsTie", "CoseProofs.Deep.Tamper"],
+    "C10": ["CoseProofs.Deep.Tbs", "CoseProofs.FactsTie", "CoseProofs.Deep.Tamper", "CoseProofs.SignersTie"],
     "C12": ["CoseProofs.Deep.Keys", "CoseProofs.Deep.Chain", "CoseProofs.FactsTie", "CoseProofs.Deep.WireClosure"],
     "C13": ["CoseProofs.Deep.Headers", "CoseProofs.FactsTie", "CoseProofs.Deep.Verifies"],
-    "C14": ["CoseProofs.Deep.Keys"],
-    "C15": ["CoseProofs.Deep.Keys", "CoseProofs.FactsTie"],
-    "C17": ["CoseProofs.FactsTie"],
-    "C20": ["CoseProofs.Deep.Tamper"],
+    "C14": ["CoseProofs.Deep.Keys", "CoseProofs.Deep.KeyRoundTrip"],
+    "C15": ["CoseProofs.Deep.Keys", "CoseProofs.FactsTie", "CoseProofs.Deep.KeyRoundTrip"],
+    "C17": ["CoseProofs.FactsTie", "CoseProofs.SignersTie", "CoseProofs.Deep.Signers"],
+    "C20": ["CoseProofs.Deep.Tamper", "CoseProofs.SignersTie", "CoseProofs.Deep.Signers"],
     "C18": ["CoseProofs.FactsTie"],
+    "C16": ["CoseProofs.SignersTie", "CoseProofs.Deep.Signers"],
 }
 
 
